@@ -364,8 +364,10 @@ func (e *Env) c04CreateTasks() {
 		ob4b.Fail(core.FuncName(closure), "with no ports at all the task-creation loop never ends")
 	default:
 		for _, first := range feeds {
-			res2 := g.Run(core.Scenario{Start: first, CallResult: zero})
-			if res2.Reaches(isFeed) != nil {
+			// from the goroutine's entry (the port counts may be tested once, before the loop), marking the send: can a
+			// feed send (this one again, or another) follow it?
+			res2 := g.Run(core.Scenario{Start: g.Entry, AtEntry: true, CallResult: zero, Marker: first})
+			if res2.MarkerRepeats() || res2.ReachesAfterMarker(func(m *core.Node) bool { return isFeed(m) && m != first }) != nil {
 				ob4b.Fail(g.Where(first), "with no ports at all a second task can be created")
 			} else {
 				ob4b.OK(g.Where(first), "no ports ⇒ one task, then the goroutine ends")
